@@ -18,7 +18,7 @@ SPEC_TARGETS = {"syn::Expr", "syn::Path", "syn::Ident", "IdentString", "Callable
                 "syn::Lit", "syn::LitInt", "syn::LitFloat", "syn::LitStr", "syn::LitByte", "syn::LitByteStr", "syn::LitChar", "syn::LitBool",
                 "helper:preserve", "helper:parse"} | {t for t in TARGETS if t.startswith("syn::Type") or t in ("syn::Visibility", "syn::WhereClause")}
 
-PATHS = ["a", "a::b", "::a::b", "a::b::<T>", "Vec<u8>", "<T as Tr>::x", "self", "Self::A", "crate::m::f", "r#type", "r#type::x",
+PATHS = ["a", "foo::<u8>", "foo::<Vec<u8>>", "a::b", "::a::b", "a::b::<T>", "Vec<u8>", "<T as Tr>::x", "self", "Self::A", "crate::m::f", "r#type", "r#type::x",
          "std::collections::HashMap<String, Vec<u8>>", "a::<'x>::b"]
 IDENTS = ["a", "foo_bar", "r#type", "r#match", "Self", "self", "_x", "x1"]
 EXPRS = ["a + b", "f(x, y)", "|a| a + 1", "|a, b| a", "{ 1 }", "[1, 2, 3]", "[]", "[a, b::c]", "1..2", "..", "..=5", "a..", "(a, b)",
@@ -44,8 +44,8 @@ def gen(rng, tier):
         bare = pool_bare if n is None else rng.sample(pool_bare, n)
         for e in bare:
             cases.append({"target": t, "src": "x = " + e, "entry": "meta"})
-            if rng.random() < (0.5 if n is None else 0.25):
-                cases.append({"target": t, "src": "x = " + e, "entry": "meta", "group_value": rng.choice([1, 1, 2, 3])})
+            if rng.random() < (0.6 if n is None else 0.35):
+                cases.append({"target": t, "src": "x = " + e, "entry": "meta", "group_value": rng.choice([1, 2, 2, 3])})
         quoted = pool_q if n is None else rng.sample(pool_q, n)
         for s in quoted:
             cases.append({"target": t, "src": "x = " + json.dumps(s), "entry": "meta"})
